@@ -1,11 +1,10 @@
 #!/bin/bash
-# dev helper of the seeded-change campaign (works on scratch worktrees under /tmp/mut; not used by any registered check)
 # verify_seeded.sh <id>: demo on clean and patched tree, then the pinned suite on the patched worktree
 id=$1
 out=/verif/seeded/$id/verification.txt
 {
 echo "== demo on clean tree (expect exit 0)"
-( cd /verif/seeded/$id/demo && timeout 1200 ./run.sh /tmp/mut/clean > /tmp/seeded-demo-$id-clean.log 2>&1; echo "exit=$?" ); tail -2 /tmp/seeded-demo-$id-clean.log | cut -c1-200
+( cd /verif/seeded/$id/demo && timeout 1200 ./run.sh /tmp/mut/clean2 > /tmp/seeded-demo-$id-clean.log 2>&1; echo "exit=$?" ); tail -2 /tmp/seeded-demo-$id-clean.log | cut -c1-200
 echo "== demo on patched tree (expect non-zero)"
 ( cd /verif/seeded/$id/demo && timeout 1200 ./run.sh /tmp/mut/$id > /tmp/seeded-demo-$id-patched.log 2>&1; echo "exit=$?" ); tail -2 /tmp/seeded-demo-$id-patched.log | cut -c1-200
 echo "== pinned suite on patched tree (make -k check)"
